@@ -36,11 +36,9 @@ Strip(tok, ch) == SelectSeq(tok, LAMBDA c : c # ch)
 (* Tie indicators <-> dense ranks.  ties[i] = 1 means "entry i is tied     *)
 (* with entry i+1"; the indicator of the last entry has no effect.         *)
 
-RanksOfTies(t) ==
-    LET n == Len(t)
-        RECURSIVE R(_)
-        R(i) == IF i = 1 THEN 1 ELSE IF t[i-1] = 1 THEN R(i-1) ELSE R(i-1) + 1
-    IN  [i \in 1 .. n |-> R(i)]
+RECURSIVE RankAt(_, _)       \* rank of entry i under the indicator vector t
+RankAt(t, i) == IF i = 1 THEN 1 ELSE IF t[i-1] = 1 THEN RankAt(t, i-1) ELSE RankAt(t, i-1) + 1
+RanksOfTies(t) == [i \in 1 .. Len(t) |-> RankAt(t, i)]
 TiesOfRanks(rk) == [i \in 1 .. Len(rk) |-> IF i < Len(rk) /\ rk[i+1] = rk[i] THEN 1 ELSE 0]
 
 -----------------------------------------------------------------------------
@@ -78,11 +76,10 @@ RRun(tk, r) == IF r.i > Len(tk) THEN r ELSE RRun(tk, RStep(tk, r))
 ReadTokens(tk) == LET r == RRun(tk, RInit) IN [ents |-> r.ents, rks |-> r.rks]
 
 (* Laws of the writer output (C13), stated on the token sequence.          *)
-Depths(tk) ==   \* parenthesis depth after each token
-    LET RECURSIVE D(_)
-        D(i) == IF i = 0 THEN 0
-                ELSE D(i-1) + (IF Has(tk[i], LPARc) THEN 1 ELSE 0) - (IF Has(tk[i], RPARc) THEN 1 ELSE 0)
-    IN  [i \in 1 .. Len(tk) |-> D(i)]
+RECURSIVE DepthAt(_, _)      \* parenthesis depth after token i
+DepthAt(tk, i) == IF i = 0 THEN 0
+                  ELSE DepthAt(tk, i-1) + (IF Has(tk[i], LPARc) THEN 1 ELSE 0) - (IF Has(tk[i], RPARc) THEN 1 ELSE 0)
+Depths(tk) == [i \in 1 .. Len(tk) |-> DepthAt(tk, i)]
 ParensBalanced(tk) ==
     /\ \A i \in DOMAIN tk : ~(Has(tk[i], LPARc) /\ Has(tk[i], RPARc))       \* runs have >= 2 entries
     /\ \A i \in DOMAIN tk : Depths(tk)[i] \in {0, 1}                         \* never nested
